@@ -1,0 +1,31 @@
+//go:build verif
+
+// Contracts for the deductive verifier in /verif (comment-only file).
+// Property C17: read fallback. A failure other than NOT_FOUND is surfaced with
+// its code (never turned into NOT_FOUND, never swallowed); the secondary is
+// consulted at most once per read; FindMissing asks the secondary exactly about
+// what the primary lacks, reports what the secondary lacks too, and has the
+// difference copied before it succeeds.
+package readfallback
+
+//@ func (*readFallbackBlobAccess).getBlobReplicatorSelector$1
+//@   requires observedErr != nil
+//@   ensures [failure-surfaced] code(observedErr) != NotFound ==> result0 == nil && result1 != nil && code(result1) == code(observedErr)
+//@         && replicator == old(replicator)
+//@   ensures [second-not-found-is-final] code(observedErr) == NotFound && old(replicator) == nil ==> result0 == nil && result1 == observedErr
+//@   ensures [fallback-at-most-once] code(observedErr) == NotFound && old(replicator) != nil ==>
+//@         result0 == old(replicator) && result1 == nil && replicator == nil
+
+//@ func (*readFallbackBlobAccess).FindMissing
+//@   requires ba.BlobAccess != nil && ba.secondary != nil && ba.replicator != nil && ba.BlobAccess != ba.secondary
+//@   ensures [primary-failure-surfaced] fmErr(ba.BlobAccess) != nil ==> result1 != nil && code(result1) == code(fmErr(ba.BlobAccess))
+//@         && baCalls(ba.secondary) == old(baCalls(ba.secondary)) && repMulti(ba.replicator) == old(repMulti(ba.replicator))
+//@   ensures [asked-in-order] baCalls(ba.BlobAccess) == old(baCalls(ba.BlobAccess)) + 1 && fmArg(ba.BlobAccess) == base(digests.digests)
+//@   ensures [secondary-asked-about-what-primary-lacks] baCalls(ba.secondary) != old(baCalls(ba.secondary)) ==>
+//@         baCalls(ba.secondary) == old(baCalls(ba.secondary)) + 1 && fmArg(ba.secondary) == fmRes(ba.BlobAccess)
+//@   ensures [secondary-failure-surfaced] fmErr(ba.BlobAccess) == nil && fmErr(ba.secondary) != nil ==> result1 != nil
+//@         && code(result1) == code(fmErr(ba.secondary)) && repMulti(ba.replicator) == old(repMulti(ba.replicator))
+//@   ensures [missing-from-both] result1 == nil ==> base(result0.digests) == fmRes(ba.secondary)
+//@         && repMulti(ba.replicator) == old(repMulti(ba.replicator)) + 1
+//@         && repMultiArg(ba.replicator) == gdiOnlyA(fmRes(ba.BlobAccess), fmRes(ba.secondary))
+//@   ensures [never-not-found] result1 != nil && fmErr(ba.BlobAccess) == nil && fmErr(ba.secondary) == nil ==> code(result1) != NotFound
